@@ -41,6 +41,7 @@ def run(report, db, tier):
     r4(report, db, cg, M, S)
     r5(report, db, cg, M, S)
     r6(report, db, cg, M, S)
+    r8(report, db, cg, M, S)
     # reuse from inside a status handler: the handler must find the
     # connection closed (clause shared with C09's status arms)
     from .c09 import plain_status
@@ -441,6 +442,56 @@ def r3(report, db, cg, M):
             report.ok(R, '%s(): idle decided under the lock before any '
                       'state change on %d path(s); active -> InvalidState'
                       % (name, proceeded))
+
+
+def r8(report, db, cg, M, S, rid='R16.8'):
+    R = report.rule(rid, 'a failed connection is closed by its own thread '
+                    'without hitting a successor: the exception dispatch '
+                    'decides "the newest thread slot is interrupted" and '
+                    'calls disconnect() inside one critical section of the '
+                    'write lock (connect()/status() fill the slots under '
+                    'that lock)')
+    he = M.conn_method('_handle_exception')
+    dc = M.conn_method('disconnect')
+    me = sy(he.params[0])
+    n = 0
+    bad = None
+    for p in S.run(he):
+        evs = p.flat()
+        for k, e in enumerate(evs):
+            if not e.calls(dc):
+                continue
+            n += 1
+            idx = [i for i, (c, _, _) in enumerate(p.conds[:e.nconds])
+                   if mentions_slot(c, me)]
+            if not idx:
+                continue        # unconditional close: nothing to race with
+            if not lock_held(e.held, me, M) or not all(
+                    lock_held(p.cond_held[i], me, M) for i in idx):
+                bad = bad or (e, 'outside the write lock')
+                continue
+            # one critical section: the lock is not let go in between
+            gap = [x for x in evs[:k] if x.kind == 'exit'
+                   and struct(x.ctx) == at(me, M.lock_attr)
+                   and x.nconds > min(idx)
+                   and not lock_held(x.held, me, M)]
+            if gap:
+                bad = bad or (e, 'in two separate critical sections')
+    if not n:
+        raise AnalysisError('_handle_exception: no call of disconnect()',
+                            he.node, rel(he.path))
+    if bad:
+        report.violation(
+            R, 'dispatch:close-race', he.path, bad[0].node, he.qualname,
+            'the dispatch tests the interrupt flag of the newest thread '
+            'slot and then calls disconnect() %s: a connect() from '
+            'another thread can run in between (it only needs the '
+            'connection to be interrupted), and the disconnect() then '
+            'closes the *new* connection and interrupts its thread -- the '
+            'reconnect the caller was promised is torn down' % bad[1])
+    else:
+        report.ok(R, 'flag test and disconnect() in one critical section '
+                  '(%d close sites)' % n)
 
 
 def mentions_slot(c, me):
